@@ -16,6 +16,7 @@ class PointInShape:
     """symbolic query point (whole plane) against a concrete catalogue shape"""
 
     nfree = 0
+    spot_names = ["membership differs from region truth", "boundary point not answered by the boundary flag"]
 
     def __init__(self, shape, flag, via="contains_point"):
         self.shape, self.flag, self.via = shape, flag, via
@@ -77,7 +78,7 @@ class PointInShape:
             return (d2 >= (2 * R.BAND) ** 2 and ans is True), txt
         if d2 is not None and d2 == 0:
             return ans != flag, txt
-        if d2 is None or d2 >= R.TOL**2:
+        if d2 is None or d2 >= R.BAND**2:
             return ans != truth, txt
         return False, txt + " (inside the tolerance band: no assertion)"
 
